@@ -209,6 +209,45 @@ SKEWED = "Subfactor,Type,Coolant,Film,Cladding,Gap,Fuel\nPower,Direct,1.05,1.02,
 _IDX = {'clad_od': 5, 'clad_mw': 6, 'clad_id': 7, 'fuel_od': 8, 'fuel_cl': 9}
 
 
+def oracle_one_kind_tables(ctx, rng, n):
+    """subfactor tables that hold only direct rows, or only statistical rows (the built-in EBR-II table has a single direct
+    row; a table of statistical uncertainties alone is a legitimate request): read, evaluated and combined like any other -
+    the result equals that of the same table with a neutral row (all ones) of the missing kind"""
+    from dassh import hotspot
+    for ci in range(n):
+        ncol = rng.choice([3, 5])
+        hdr = "Subfactor,Type,Coolant,Film,Cladding" + (",Gap,Fuel" if ncol == 5 else "")
+        kind = rng.choice(['Direct', 'Statistical'])
+        rows = ["f%d,%s,%s" % (k, kind, ",".join("%.4f" % rng.uniform(1.0, 1.3) for _ in range(ncol))) for k in range(rng.choice([1, 2, 3]))]
+        other = 'Statistical' if kind == 'Direct' else 'Direct'
+        neutral = "n,%s,%s" % (other, ",".join("1.0" for _ in range(ncol)))
+        d = ctx.work / ("onekind%d" % ci)
+        d.mkdir(parents=True, exist_ok=True)
+        p1, p2 = str(d / "a.csv"), str(d / "b.csv")
+        open(p1, "w").write(hdr + "\n" + "\n".join(rows) + "\n")
+        open(p2, "w").write(hdr + "\n" + "\n".join(rows + [neutral]) + "\n")
+        dT = np.array([[rng.uniform(50, 200)] + [rng.uniform(1, 40) for _ in range(ncol - 1)] for _ in range(2)])
+        ctx.evals += 1
+        ctx.count("one_kind_tables:" + kind)
+        try:
+            out = []
+            for p_ in (p1, p2):
+                hcf, expr = hotspot._read_hcf_table(p_)
+                sf = hotspot._evaluate_hcf_expr(hcf, expr, dT)
+                out.append(np.asarray(hotspot.calculate_temps(650.0, dT, sf, 3, 2), dtype=float))
+        except SystemExit:
+            ctx.violation("c19-one-kind-table:rejected", "a subfactor table with %s rows only is refused" % kind, table=open(p1).read())
+            continue
+        except Exception as ex:
+            ctx.violation("c19-one-kind-table:%s" % type(ex).__name__, "a subfactor table with %s rows only cannot be evaluated: %r"
+                          % (kind, ex), table=open(p1).read())
+            continue
+        nominal = 650.0 + np.cumsum(dT, axis=1)
+        if np.abs(out[0] - out[1]).max() > 1e-9 or (out[0] < nominal - 1e-9).any() or not np.isfinite(out[0]).all():
+            ctx.violation("c19-one-kind-table:value", "a subfactor table with %s rows only gives %s; with a neutral %s row added %s; nominal %s"
+                          % (kind, out[0].tolist(), other, out[1].tolist(), nominal.tolist()), table=open(p1).read())
+
+
 def oracle_analyze(ctx, rng, n):
     """end to end through hotspot.analyze on real swept reactors: several assembly types request a hot spot, their assemblies
     interleave in the core numbering; every assembly's reported hot-spot must be computed from ITS OWN nominal peak (unity table:
@@ -400,6 +439,7 @@ def run(ctx):
         ctx.prove("Dassh.Props.C19")
     oracle(ctx, rng, 400 if ctx.thorough else 80)
     oracle_expressions(ctx, rng, 200 if ctx.thorough else 40)
+    oracle_one_kind_tables(ctx, rng, 60 if ctx.thorough else 12)
     oracle_analyze(ctx, rng, 12 if ctx.thorough else 4)
     ctx.prove("Dassh.Props.C19Sort")
     sort_correspondence(ctx, rng, 200 if ctx.thorough else 60)
